@@ -1,19 +1,20 @@
-SPECIFICATION Spec
+SPECIFICATION SimSpec
 CONSTANTS
   Acc = {"a1", "a2"}
   Null = "0"
-  Kinds <- K3
-  BatchSize = 3
-  MaxBlocks = 4
-  MaxXfers = 7
+  Kinds <- S5
+  BatchSize = 2
+  MaxBlocks = 6
+  MaxXfers = 14
   MaxPerBlock = 3
-  Replica <- R2
-  DiskBackend <- R1
-  GCReplica <- None
+  Replica <- R3
+  DiskBackend <- RDisk
+  GCReplica <- RGC
   MTB = 1
   DevMemSeekExclusive = FALSE
   DevGCDropsEdge = FALSE
   DevNoReloadOpenBatch = FALSE
   DevKeyByBlockTs = FALSE
-INVARIANTS ImplAll
+  Depth = 22
+INVARIANT Emit
 CHECK_DEADLOCK FALSE
